@@ -2,8 +2,8 @@ SPECIFICATION Spec
 CONSTANTS
   Vars = {"x"}
   Flags = {"none", "global", "default", "null", "inc"}
-  OpenKinds = {"rule", "media", "atrule", "if", "each", "for", "while", "lmixin", "mixin", "function", "content"}
-  BoundKinds = {"each", "for", "mixin", "function", "content"}
+  OpenKinds = {"rule", "media", "atrule", "if", "each", "for", "while", "lmixin", "lmixind", "lfunctiond", "mixin", "function", "content"}
+  BoundKinds = {"each", "for", "mixin", "function", "content", "lmixin", "lmixind", "lfunctiond"}
   MaxLen = 7
   MaxDepth = 3
   CheckDev = {}
